@@ -5,6 +5,7 @@ import JSight.Props.C07
 import JSight.Props.C04_Bridge
 import JSight.Gen.BuildTable
 import JSight.Props.C02_Located
+import JSight.Props.C14
 /-!
 # The composed model (`Model/Project.lean`): totality, and the seams between the stages
 
@@ -23,6 +24,11 @@ single stages compose:
 * `process_build_obeys` — the forest handed to the catalog construction satisfies the hypothesis `obeysF` of the content
   theorems of `C04_Content`, whatever the bytes were; `process_ok_inv` exposes the stages of an accepted run so that
   those theorems apply to it;
+* `scan_diag_ok` — the seam C14 → assembly: the diagnostic "unknown directive" is unreachable (every keyword lexeme the
+  scanner delivers has a directive kind: `C14.keyword_spells`, `respCode_ok`), and every diagnostic located at a lexeme or
+  at a directive's keyword lies inside the file (`C14.in_bounds`);
+* `process_build_error_at` — a diagnostic of the catalog-construction stage points at the keyword of a directive of the
+  expanded forest; `scan_phase_order` — the order of the steps of the scan phase, read off the regenerated `Gen.scanCalls`;
 * `processFS_not_bad` — the same totality for projects of SEVERAL files (`processFS`: INCLUDE at the level of bytes):
   whatever the files contain and however they include one another, no scanner fault, no exhausted scan, no exhausted
   include budget (`runFile_budget`: the files on the scanner stack are pairwise distinct entries of the file system, so the
@@ -621,6 +627,222 @@ theorem processFS_not_bad (fs : PFS) (o : Nat → Oracle) (banned : List Kind) (
         rw [hb] at h
         simp only at h
         injection h with h; subst h; rfl
+
+/-! ## what the scanner guarantees to the assembly (the seam C14 → assembly)
+
+`C14.keyword_spells`: every Keyword lexeme spells a directive name of the table or a response code — hence
+`directive.NewDirectiveType` never fails on a keyword the scanner delivers: the diagnostic "unknown directive" of
+`setCurrentDirective` is unreachable.  `C14.in_bounds`: lexemes lie inside the file — hence every diagnostic of the scan of
+a single file is located inside the file (or at its end). -/
+
+theorem all_codes : ∀ i, i < 5 → ∀ j, j < 10 → ∀ k, k < 10 →
+    isHTTPResponseCode [UInt8.ofNat (49 + i), UInt8.ofNat (48 + j), UInt8.ofNat (48 + k)] = true := by decide +kernel
+
+theorem u8_eq (a : UInt8) (lo : Nat) (h : lo ≤ a.toNat) : a = UInt8.ofNat (lo + (a.toNat - lo)) := by
+  have : lo + (a.toNat - lo) = a.toNat := by omega
+  rw [this]; simp
+
+/-- the scanner's notion of a response code (three digits, the first 1–5) is accepted by `IsHTTPResponseCode`
+(`strconv.Atoi`, no leading zero, 100 ≤ code ≤ 599) -/
+theorem respCode_ok (b : Bytes) (h : ScanLex.isResponseCode b = true) : isHTTPResponseCode b = true := by
+  unfold ScanLex.isResponseCode at h
+  match b, h with
+  | [a, x, y], h =>
+    simp only [Bool.and_eq_true, decide_eq_true_eq] at h
+    obtain ⟨⟨⟨ha1, ha2⟩, hx1, hx2⟩, hy1, hy2⟩ := h
+    have a1 : 49 ≤ a.toNat := by simpa using UInt8.le_iff_toNat_le.mp ha1
+    have a2 : a.toNat ≤ 53 := by simpa using UInt8.le_iff_toNat_le.mp ha2
+    have x1 : 48 ≤ x.toNat := by simpa using UInt8.le_iff_toNat_le.mp hx1
+    have x2 : x.toNat ≤ 57 := by simpa using UInt8.le_iff_toNat_le.mp hx2
+    have y1 : 48 ≤ y.toNat := by simpa using UInt8.le_iff_toNat_le.mp hy1
+    have y2 : y.toNat ≤ 57 := by simpa using UInt8.le_iff_toNat_le.mp hy2
+    rw [u8_eq a 49 a1, u8_eq x 48 x1, u8_eq y 48 y1]
+    exact all_codes _ (by omega) _ (by omega) _ (by omega)
+
+/-- a keyword the scanner delivers has a directive kind -/
+theorem keyword_has_kind (d : Src) (o : Oracle) (n : Nat) (lex : Lexeme) (hl : lex ∈ (lexAll d o n Sc.init []).1)
+    (ht : lex.ty = .keyword) : (kindOfKeyword (d.slice lex.b lex.e1)).isSome = true := by
+  unfold kindOfKeyword
+  rcases C14.keyword_spells d o n lex hl ht with ⟨k, hk, hne, he⟩ | hr
+  · have : (Kind.all.find? (fun k => k != Kind.HTTPResponseCode && k.name.toUTF8.toList == d.slice lex.b lex.e1)).isSome = true := by
+      rw [List.find?_isSome]
+      exact ⟨k, hk, by simp [hne, he]⟩
+    cases hf : Kind.all.find? (fun k => k != Kind.HTTPResponseCode && k.name.toUTF8.toList == d.slice lex.b lex.e1) with
+    | some _ => rfl
+    | none => rw [hf] at this; cases this
+  · cases Kind.all.find? (fun k => k != Kind.HTTPResponseCode && k.name.toUTF8.toList == d.slice lex.b lex.e1) with
+    | some _ => rfl
+    | none => simp [respCode_ok _ hr]
+
+/-- the byte index of a diagnostic that is located at a lexeme or at the keyword of a directive (the diagnostics of the
+scanner itself and the two parenthesis diagnostics, which are located at the scanner's read position, are not of this
+kind) -/
+def lexLocated : PErr → Option Nat
+  | .notAllowed i | .noDirective i | .param _ i | .includeSeen i | .unknownDirective i => some i
+  | .ctx (.incorrectContext _) i | .ctx (.pathMethodInExplicit _) i => some i
+  | _ => none
+
+/-- a lexeme the assembly consumes: it begins inside the file, and if it is a keyword it has a directive kind -/
+def GoodLex (d : Src) (l : Lexeme × Nat) : Prop :=
+  l.1.b ≤ d.size ∧ (l.1.ty = .keyword → (kindOfKeyword (d.slice l.1.b l.1.e1)).isSome = true)
+
+/-- the directive being assembled was written inside the file -/
+def CurOK (d : Src) (st : ASt) : Prop := ∀ r, st.cur = some r → r.pos ≤ d.size
+
+/-- what the theorems below say of a diagnostic: never "unknown directive", and inside the file when lexeme-located -/
+def DiagOK (d : Src) (e : PErr) : Prop := (∀ j, e ≠ .unknownDirective j) ∧ ∀ i, lexLocated e = some i → i ≤ d.size
+
+/-- `processContext` locates its diagnostic at the directive being placed -/
+theorem place_error_id {frames : List Frame} {roots : List Tree} {x : Dir} {e : CtxErr}
+    (h : place frames roots x = .error e) :
+    e = .incorrectContext x.id ∨ e = .pathMethodInExplicit x.id := by
+  fun_induction place frames roots x <;> first | (simp at h; done) | (simp at h; subst h; simp) | simp_all
+
+theorem closeExplicit_error {frames : List Frame} {roots : List Tree} {e : CtxErr}
+    (h : closeExplicit frames roots = .error e) : e = .noExplicitToClose := by
+  fun_induction closeExplicit frames roots <;> first | (simp at h; done) | (simp at h; subst h; rfl) | simp_all
+
+theorem flush_idx (d : Src) (st : ASt) (hc : CurOK d st) :
+    (∀ e, flush st = .error e → DiagOK d e) ∧ (∀ st', flush st = .ok st' → CurOK d st') := by
+  unfold flush
+  cases hcur : st.cur with
+  | none => exact ⟨(by simp), (fun st' h => by injection h with h; subst h; exact hc)⟩
+  | some r =>
+    simp only
+    cases hp : place st.ctx.frames st.ctx.roots r.toDir with
+    | error x =>
+      refine ⟨(fun e h => ?_), (by simp)⟩
+      injection h with h; subst h
+      have hr := hc r hcur
+      rcases place_error_id hp with rfl | rfl <;>
+        exact ⟨(by intro j h; cases h), (by intro i hi; simp [lexLocated, ctxErrIdx, RDir.toDir] at hi; omega)⟩
+    | ok c =>
+      refine ⟨(by simp), (fun st' h => ?_)⟩
+      injection h with h; subst h
+      intro r' h'; cases h'
+
+theorem step_idx (d : Src) (banned : List Kind) (st : ASt) (lex : Lexeme) (cur : Nat)
+    (hg : GoodLex d (lex, cur)) (hc : CurOK d st) :
+    (∀ e, step d banned st lex cur = .error e → DiagOK d e) ∧ (∀ st', step d banned st lex cur = .ok st' → CurOK d st') := by
+  have hb : lex.b ≤ d.size := hg.1
+  have here : ∀ e : PErr, (∀ j, e ≠ .unknownDirective j) → lexLocated e = some lex.b ∨ lexLocated e = none → DiagOK d e := by
+    intro e h1 h2
+    refine ⟨h1, fun i hi => ?_⟩
+    rcases h2 with h2 | h2 <;> rw [h2] at hi
+    · injection hi with hi; omega
+    · cases hi
+  unfold step
+  cases hty : lex.ty
+  case keyword =>
+    simp only
+    split
+    · exact ⟨(fun e h => by injection h with h; subst h; exact here _ (by intro j h; cases h) (Or.inl rfl)), (by simp)⟩
+    · cases hf : flush st with
+      | error x =>
+        exact ⟨(fun e h => by injection h with h; subst h; exact (flush_idx d st hc).1 _ hf), (by simp)⟩
+      | ok st1 =>
+        simp only
+        have hk := hg.2 hty
+        cases hkk : kindOfKeyword (d.slice lex.b lex.e1) with
+        | none => simp only at hk; rw [hkk] at hk; cases hk
+        | some k =>
+          simp only
+          split
+          · exact ⟨(fun e h => by injection h with h; subst h; exact here _ (by intro j h; cases h) (Or.inl rfl)), (by simp)⟩
+          · refine ⟨(by simp), (fun st' h => ?_)⟩
+            injection h with h; subst h
+            intro r hr; injection hr with hr; subst hr; exact hb
+  case parameter =>
+    simp only
+    cases hcur : st.cur with
+    | none => exact ⟨(fun e h => by injection h with h; subst h; exact here _ (by intro j h; cases h) (Or.inl rfl)), (by simp)⟩
+    | some r =>
+      simp only
+      cases hp : Param.appendParameter r.kind r.params (d.slice lex.b lex.e1) with
+      | error x => exact ⟨(fun e h => by injection h with h; subst h; exact here _ (by intro j h; cases h) (Or.inl rfl)), (by simp)⟩
+      | ok q =>
+        refine ⟨(by simp), (fun st' h => ?_)⟩
+        injection h with h; subst h
+        intro r' hr'; injection hr' with hr'; subst hr'; exact hc r hcur
+  case contextClose =>
+    simp only
+    cases hf : flush st with
+    | error x => exact ⟨(fun e h => by injection h with h; subst h; exact (flush_idx d st hc).1 _ hf), (by simp)⟩
+    | ok st1 =>
+      simp only
+      have hc1 := (flush_idx d st hc).2 st1 hf
+      cases hce : closeExplicit st1.ctx.frames st1.ctx.roots with
+      | error x =>
+        refine ⟨(fun e h => ?_), (by simp)⟩
+        injection h with h; subst h
+        rw [closeExplicit_error hce]
+        exact here _ (by intro j h; cases h) (Or.inr rfl)
+      | ok c =>
+        refine ⟨(by simp), (fun st' h => ?_)⟩
+        injection h with h; subst h
+        intro r hr; exact hc1 r hr
+  all_goals
+    simp only
+    cases hcur : st.cur with
+    | none => exact ⟨(fun e h => by injection h with h; subst h; exact here _ (by intro j h; cases h) (Or.inl rfl)), (by simp)⟩
+    | some r =>
+      refine ⟨(by simp), (fun st' h => ?_)⟩
+      injection h with h; subst h
+      intro r' hr'; injection hr' with hr'; subst hr'; exact hc r hcur
+
+theorem steps_idx (d : Src) (banned : List Kind) : ∀ (l : List (Lexeme × Nat)) (st : ASt),
+    (∀ x ∈ l, GoodLex d x) → CurOK d st →
+    (∀ e, steps d banned st l = .error e → DiagOK d e) ∧ (∀ st', steps d banned st l = .ok st' → CurOK d st')
+  | [], st, _, hc => ⟨(by simp [steps]), (fun st' h => by simp [steps] at h; subst h; exact hc)⟩
+  | (lex, cur) :: r, st, hg, hc => by
+    unfold steps
+    have h1 := step_idx d banned st lex cur (hg _ List.mem_cons_self) hc
+    cases hs : step d banned st lex cur with
+    | error x => exact ⟨(fun e h => by injection h with h; subst h; exact h1.1 _ hs), (by simp)⟩
+    | ok st1 =>
+      simp only
+      exact steps_idx d banned r st1 (fun x hx => hg x (List.mem_cons_of_mem _ hx)) (h1.2 _ hs)
+
+/-- **the seam C14 → assembly, for the whole scan of a file**: whatever the bytes and the oracle,
+(1) the diagnostic "unknown directive" never occurs (every keyword the scanner delivers has a directive kind:
+`C14.keyword_spells`), and (2) every diagnostic that is located at a lexeme or at a directive's keyword — a banned kind, a
+lexeme without a directive, a refused parameter, an incorrect context — lies inside the file (`C14.in_bounds`) -/
+theorem scan_diag_ok (content : Bytes) (o : Oracle) (banned : List Kind) (e : PErr)
+    (h : scan content o banned = .error e) : DiagOK (Src.ofArray content.toArray) e := by
+  unfold scan at h
+  cases hu : firstInvalidUTF8 content with
+  | some i =>
+    simp only [hu] at h; injection h with h; subst h
+    exact ⟨(by intro j h; cases h), (by intro i hi; cases hi)⟩
+  | none =>
+    simp only [hu] at h
+    have hlex := lexAllC_lexemes (Src.ofArray content.toArray) o ((Src.ofArray content.toArray).size + 2)
+    generalize hl : lexAllC (Src.ofArray content.toArray) o ((Src.ofArray content.toArray).size + 2) Sc.init [] = res at h hlex
+    rcases res with ⟨lexs, stop, sc⟩
+    simp only at h hlex
+    have hgood : ∀ x ∈ lexs, GoodLex (Src.ofArray content.toArray) x := by
+      intro x hx
+      have hm : x.1 ∈ (lexAll (Src.ofArray content.toArray) o ((Src.ofArray content.toArray).size + 2) Sc.init []).1 := by
+        rw [← hlex]; exact List.mem_map.mpr ⟨x, hx, rfl⟩
+      have hb := C14.in_bounds _ o _ x.1 hm
+      exact ⟨by omega, fun ht => keyword_has_kind _ o _ x.1 hm ht⟩
+    have hst := steps_idx (Src.ofArray content.toArray) banned lexs {} hgood (by intro r hr; cases hr)
+    cases hs : steps (Src.ofArray content.toArray) banned {} lexs with
+    | error x => simp only [hs] at h; injection h with h; subst h; exact hst.1 _ hs
+    | ok st =>
+      simp only [hs] at h
+      cases stop with
+      | some s =>
+        cases s <;> (simp only at h; injection h with h; subst h; exact ⟨(by intro j h; cases h), (by intro i hi; cases hi)⟩)
+      | none =>
+        simp only at h
+        cases hf : flush st with
+        | error x => simp only [hf] at h; injection h with h; subst h; exact (flush_idx _ st (hst.2 _ hs)).1 _ hf
+        | ok st1 =>
+          simp only [hf] at h
+          split at h
+          · injection h with h; subst h; exact ⟨(by intro j h; cases h), (by intro i hi; cases hi)⟩
+          · cases h
 
 /-! ## where the diagnostics of the catalog construction point (C02 for the composed model) -/
 
